@@ -25,7 +25,7 @@ LEVEL = 'proof'
 TRUSTED = TRUSTED_COMMON + ['storage / view model of the op table: reshape of a contiguous tensor, permute, t, basic indexing, diagonal, squeeze, unsqueeze, conj, detach are views; '
                             'clone, arithmetic, einsum, pad, cat, matmul return fresh storage']
 ASSUMPTIONS = ['DMRG routines: order d=2 with nswp<=2 and d=3 with nswp=1 (all symbolic paths; sizes, ranks, kickrank symbolic); the sweep body is the same code for every order',
-               'AMEn routines (amen_mv, amen_mm, amen_solve, amen_divide) and the cross interpolation are covered by the bounded run-time stand-ins of C11-C14 only (guess unchanged clause)']
+               'amen_mv / amen_mm: orders 1, 2, one sweep (all symbolic paths); amen_solve, amen_divide and the cross interpolation are covered by the bounded run-time stand-ins of C12-C14 only (guess unchanged clause)']
 EXPLANATION = 'frame conditions with an explicit heap: every list and tensor storage reachable from an argument is registered at entry; any write to one of them on any path fails the obligation'
 
 
@@ -91,6 +91,17 @@ def dmrg_frame(ob, which, d, nswp, guess):
     ob.wf(r)
     all_eq(ob, 'N', fields(ob, r)['N'], want)
     ob.frame()
+
+
+def _amen_frame(ob, which, d, guess):
+    from . import c11 as _c11
+    _c11.amen_frame(ob, which, d, guess)
+    ob.results = [r for r in ob.results if r['kind'] == 'frame']
+
+
+scenario('C06', 'amen.frame', ['torchtt._amen.amen_mv', 'torchtt._amen.amen_mm'],
+         quick=[dict(which=w, d=1, guess=True) for w in ('amen_mv', 'amen_mm')],
+         thorough=[dict(which=w, d=d, guess=True) for w in ('amen_mv', 'amen_mm') for d in (1, 2)], replay=None, max_paths=6000)(_amen_frame)
 
 
 @scenario('C06', 'manifold.frame', ['torchtt.manifold.riemannian_projection'], quick=[dict(d=2, ttm=False), dict(d=2, ttm=True)],
